@@ -53,9 +53,6 @@ def satSub (nowNs whenNs : Int) : Int :=
   if d > 9223372036854775807 then 9223372036854775807
   else if d < -9223372036854775808 then -9223372036854775808 else d
 
-/-- `abs` on int64: `-MinInt64` overflows back to `MinInt64`. -/
-def absI64 (d : Int) : Int := if d < 0 then (if d = -9223372036854775808 then d else -d) else d
-
 inductive VR where
   | panic
   | reject
@@ -74,7 +71,8 @@ def validateToken (a : AEAD) (nowNs : Int) (token srcConnID dstConnID addr : Lis
       | none => VR.reject
       | some pt =>
         if pt.length < 8 then VR.reject
-        else if absI64 (satSub nowNs (int64OfU64 (beNat (pt.take 8)) * 1000000000)) > validityNs then VR.reject
+        else if satSub nowNs (int64OfU64 (beNat (pt.take 8)) * 1000000000) > validityNs ∨
+                satSub nowNs (int64OfU64 (beNat (pt.take 8)) * 1000000000) < -validityNs then VR.reject
         else VR.accept (pt.drop 8)
 
 /-! ### toy AEAD (same definition in harness/C31) -/
